@@ -33,12 +33,23 @@ IFCONFIG == <<105, 102, 99, 111, 110, 102, 105, 103>>                          \
 NETMASK == <<110, 101, 116, 109, 97, 115, 107>>                                \* netmask
 MTU == <<109, 116, 117>>                                                       \* mtu
 
+\* the netmask is the dotted form of a prefix length within the accepted range 1..32: leading 255s, one partial octet,
+\* then zeros - and not 0.0.0.0 (a peer that could make the whole address space on-link is not "within the range")
+MaskOctets == {0, 128, 192, 224, 240, 248, 252, 254, 255}
+PrefixMask(t) ==
+    /\ DottedQuad(t)
+    /\ LET p == Split(t, DOT)
+           o == [i \in 1..4 |-> NumOf(p[i])]
+       IN /\ \A i \in 1..4 : o[i] \in MaskOctets
+          /\ \A i \in 1..3 : o[i] < 255 => o[i + 1] = 0
+          /\ o[1] # 0
+\* the MTU is a decimal integer within the range the client accepts (201..1500)
 ValidCmd(s) ==
     LET t == Split(s, SP) IN
     \/ /\ Len(t) = 7 /\ t[1] = PATHTOK /\ t[2] = IFCONFIG /\ IfName(t[3])
-       /\ DottedQuad(t[4]) /\ DottedQuad(t[5]) /\ t[6] = NETMASK /\ DottedQuad(t[7])
+       /\ DottedQuad(t[4]) /\ DottedQuad(t[5]) /\ t[6] = NETMASK /\ PrefixMask(t[7])
     \/ /\ Len(t) = 5 /\ t[1] = PATHTOK /\ t[2] = IFCONFIG /\ IfName(t[3])
-       /\ t[4] = MTU /\ IntIn(t[5], 1, 65535)
+       /\ t[4] = MTU /\ IntIn(t[5], 201, 1500)
 
 (* --- the design-level statement, checked by TLC over all short field strings --- *)
 CONSTANTS Alphabet, MaxLen
